@@ -1,17 +1,19 @@
 #!/bin/bash
 # tools/mut.sh <patch.diff> <check-id> [extra check args...]
-# Applies a patch to /repo's working tree, runs the check, always reverts. Prints DETECTED / MISSED.
+# Applies a patch to a scratch worktree of /repo (never /repo itself), runs the check against it
+# (PYTHONPATH override), removes the worktree. Prints DETECTED / MISSED. Safe to run in parallel.
 P=$(readlink -f "$1"); shift
 ID=$1; shift
-cd /repo || exit 2
-if ! git diff --quiet; then echo "repo working tree not clean"; exit 2; fi
-git apply "$P" || { echo "patch does not apply"; exit 2; }
-cd /verif && ./check "$ID" "$@" > /tmp/mut_$$.log 2>&1
+WT=$(mktemp -d /tmp/vfmut.XXXXXX)
+git -C /repo worktree add -q --detach "$WT" HEAD >/dev/null 2>&1 || { echo "worktree failed"; exit 2; }
+trap 'git -C /repo worktree remove --force "$WT" >/dev/null 2>&1; rm -rf "$WT" /tmp/mut_$$.log' EXIT
+( cd "$WT" && git apply "$P" ) || { echo "patch does not apply: $P"; exit 2; }
+cd /verif && PYTHONPATH="$WT" VF_EVIDENCE_DIR="$WT/.vf_evidence" VF_REPLAY_DIR="$WT/.vf_replays" ./check "$ID" "$@" > /tmp/mut_$$.log 2>&1
 RC=$?
-cd /repo && git checkout -- . 
 if [ $RC -eq 1 ] && grep -q "^VIOLATION property=$ID" /tmp/mut_$$.log; then
-  echo "DETECTED $ID $(basename $P): $(grep -c '^VIOLATION' /tmp/mut_$$.log) violation line(s); first: $(grep -m1 'signature:' /tmp/mut_$$.log | cut -c1-220)"
+  echo "DETECTED $ID $(basename $P): $(grep -c '^VIOLATION' /tmp/mut_$$.log) violation line(s); first: $(grep -m1 'signature:' /tmp/mut_$$.log | cut -c1-240)"
+  exit 0
 else
-  echo "MISSED $ID $(basename $P) rc=$RC"; tail -3 /tmp/mut_$$.log
+  echo "MISSED $ID $(basename $P) rc=$RC"; tail -4 /tmp/mut_$$.log | cut -c1-400
+  exit 1
 fi
-rm -f /tmp/mut_$$.log
